@@ -50,6 +50,22 @@ COMPOSITES = {
     "default-omitted": {"params": [SID, V("a", U8, default=7), V("b", U8), TAIL], "omit": ["a"]},
     "physconst-reserved": {"params": [SID, dict(kind="physconst", name="pc", dop=U8, value=0x42),
                                       dict(kind="reserved", name="rsv", bl=12), V("a", U8), TAIL]},
+    "default-supplied": {"params": [SID, V("a", U8, default=7), V("b", S8, default=-3), TAIL]},
+    "reserved-bitpos": {"params": [SID, dict(kind="reserved", name="r1", bl=6, bitpos=4), V("a", U8),
+                                   dict(kind="reserved", name="r2", bl=12, bitpos=5), V("b", U8),
+                                   dict(kind="reserved", name="r3", bl=3, bitpos=2), TAIL]},
+    "reserved-last": {"params": [SID, V("a", U8), dict(kind="reserved", name="r", bl=7, bitpos=3)]},
+    "mux-then-positioned": {"params": [SID, V("pre", U8), V("m", dict(
+        complex="mux", bytepos=1, key_dop=U8, cases=[
+            dict(name="c1", lo=1, hi=3, structure=dict(params=[V("a", U8)])),
+            dict(name="c3", lo=10, hi=20, structure=None)],
+        default=dict(name="dflt", structure=None))), V("post", U8, bytepos=5), C("end", 0x5A, bytepos=6)],
+        "cases": ["c1", "c3", "dflt"]},
+    "mux-in-structure": {"params": [SID, V("st", S([V("h", U8), V("m", dict(
+        complex="mux", bytepos=1, key_dop=U8, cases=[
+            dict(name="c1", lo=1, hi=1, structure=dict(params=[V("a", U16)])),
+            dict(name="c2", lo=2, hi=2, structure=None)])), V("t", U8, bytepos=5)])), TAIL],
+        "cases": ["c1", "c2"]},
     "structure": {"params": [SID, V("st", S([V("x", U8), V("y", U16)])), TAIL]},
     "structure-positions": {"params": [SID, V("pre", U8),
                                        V("st", S([V("x", U8, bytepos=1), V("y", U8, bytepos=0)])),
